@@ -34,6 +34,13 @@ void verif_replay_pathend(void);
 #define IS_CBMC 1
 #endif
 
+/* the verification snapshot hoists struct type's `u.basic` out of its union (vlib/unionfix.py:hoist_basic) */
+#ifdef REPLAY
+#define UBASIC(t) ((t)->u.basic)
+#else
+#define UBASIC(t) ((t)->ubasic)
+#endif
+
 #ifdef WITNESS
 #define WITNESS_POINT() CHECK(0, "witness: end of harness reachable")
 #else
